@@ -11,7 +11,6 @@ use cairo_lang_filesystem::cfg::{Cfg as CfgItem, CfgSet};
 use cairo_lang_filesystem::db::init_dev_corelib;
 use cairo_lang_runner::{RunResultValue, SierraCasmRunner, StarknetState};
 use cairo_lang_sierra_to_casm::metadata::MetadataComputationConfig;
-use cairo_lang_starknet::starknet_plugin_suite;
 use cairo_lang_test_plugin::{TestsCompilationConfig, compile_test_prepared_db, test_plugin_suite};
 use serde_json::json;
 
@@ -24,8 +23,8 @@ fn corelib_test_outcomes(cfg: &Cfg) -> Result<BTreeMap<String, String>, String> 
     let mut b = RootDatabase::builder();
     b.with_optimizations(cfg.optimizations());
     b.with_cfg(CfgSet::from_iter([CfgItem::name("test"), CfgItem::kv("target", "test")]));
+    // `cairo-test corelib/` runs without the Starknet plugin
     b.with_default_plugin_suite(test_plugin_suite());
-    b.with_default_plugin_suite(starknet_plugin_suite());
     let mut db = b.build().map_err(|e| format!("{e}"))?;
     init_dev_corelib(&mut db, PathBuf::from(CORELIB));
     if let Some(t) = cfg.match_threshold {
@@ -34,11 +33,12 @@ fn corelib_test_outcomes(cfg: &Cfg) -> Result<BTreeMap<String, String>, String> 
         db.set_flag(FlagLongId(Flag::NUMERIC_MATCH_OPTIMIZATION_MIN_ARMS_THRESHOLD.into()), Some(Flag::NumericMatchOptimizationMinArmsThreshold(t)));
     }
     let inputs = setup_project(&mut db, Path::new("/repo/corelib")).map_err(|e| format!("{e}"))?;
-    let reporter = DiagnosticsReporter::ignoring().with_crates(&inputs).allow_warnings();
+    let mut diag_text = String::new();
+    let reporter = DiagnosticsReporter::write_to_string(&mut diag_text).with_crates(&inputs).allow_warnings();
     let compiled = compile_test_prepared_db(
         &db,
         TestsCompilationConfig {
-            starknet: true,
+            starknet: false,
             add_statements_functions: false,
             add_statements_code_locations: false,
             contract_declarations: None,
@@ -51,7 +51,11 @@ fn corelib_test_outcomes(cfg: &Cfg) -> Result<BTreeMap<String, String>, String> 
         inputs,
         reporter,
     )
-    .map_err(|e| format!("{e}"))?;
+    .map_err(|e| format!("{e}"));
+    let compiled = match compiled {
+        Ok(c) => c,
+        Err(e) => return Err(format!("{e}: {}", diag_text.chars().take(500).collect::<String>())),
+    };
     let md = MetadataComputationConfig { function_set_costs: compiled.metadata.function_set_costs.clone(), linear_gas_solver: cfg.linear, linear_ap_change_solver: cfg.linear, skip_non_linear_solver_comparisons: false, compute_runtime_costs: false };
     let runner = SierraCasmRunner::new(compiled.sierra_program.program.clone(), Some(md), compiled.metadata.contracts_info.clone(), None).map_err(|e| format!("{e}"))?;
     let mut out = BTreeMap::new();
